@@ -25,10 +25,31 @@ class PromiseCore : public std::conditional_t<Shared, SharedCore<V, E>, UniqueCo
   using Base = std::conditional_t<Shared, SharedCore<V, E>, UniqueCore<V, E>>;
 
   explicit PromiseCore(Func&& f) : F{std::forward<Func>(f)} {
+    this->_self = {};
   }
+
+  [[nodiscard]] InlineCore* Here(InlineCore& caller) noexcept final {
+    if (this->_self.unwrapping == 0) {
+      // Started as the head of a lazy Task returned from another step
+      this->_executor->Submit(*this);
+      return nullptr;
+    }
+    return Base::Here(caller);
+  }
+
+#if YACLIB_SYMMETRIC_TRANSFER != 0
+  [[nodiscard]] yaclib_std::coroutine_handle<> Next(InlineCore& caller) noexcept final {
+    if (this->_self.unwrapping == 0) {
+      this->_executor->Submit(*this);
+      return yaclib_std::noop_coroutine();
+    }
+    return Base::Next(caller);
+  }
+#endif
 
  private:
   void Call() noexcept final {
+    this->_self.unwrapping = 1;
     PromiseT promise{CorePtrT{NoRefTag{}, this}};
     try {
       // We need to move func with capture on stack, because promise can be Set before func return
@@ -47,6 +68,7 @@ class PromiseCore : public std::conditional_t<Shared, SharedCore<V, E>, UniqueCo
   }
 
   void Drop() noexcept final {
+    this->_self.unwrapping = 1;
     this->_func.storage.~Storage();
     this->Store(StopTag{});
     Loop(this, this->template SetResult<false>());
